@@ -35,12 +35,11 @@ fn cost_seq<const K: usize>(first_zero: Option<bool>) {
     if stride_representable(&vals[..]) {
         assert!(u == 0 && cap == 0, "C19: a stride-representable sequence occupies heap");
     }
-    // reachability witnesses: with a non-zero first value everything spills and "representable" cannot happen
-    if first_zero == Some(false) {
-        cover!(u > 0, "spilled");
-    } else {
-        cover!(stride_representable(&vals[..]), "whole sequence representable");
-    }
+    // reachability witnesses; which of the first two can happen depends on the instantiation (with a non-zero first
+    // value everything spills), so they are informational ("opt:"), the end of the body is the required one
+    cover!(stride_representable(&vals[..]), "opt: whole sequence representable");
+    cover!(u > 0, "opt: spilled");
+    cover!(true, "end reached");
     sym::forget(c);
 }
 
@@ -200,4 +199,33 @@ pub fn c19_flatstack_reserve_extend_zero() {
     assert!(k > region_pairs && own == 0, "C19: reserve/extend made a dense-index FlatStack spend heap on its own indices");
     cover!(true, "end reached");
     sym::forget((fs, twin));
+}
+
+/// `reserve` on a container whose contents are stride-representable (in every such mode) must not make it hold heap,
+/// and the sequence continued afterwards is still free.
+fn indexopt_reserve_free(prefix: &[usize], next: usize) {
+    let mut c = IndexOptimized::<Vec<u32>, Vec<u64>>::default();
+    for &p in prefix {
+        c.push(p);
+    }
+    Storage::reserve(&mut c, 4);
+    let (u, cap) = used_cap(&c);
+    assert!(u == 0 && cap == 0, "C19: reserve made a stride-representable container hold heap");
+    c.push(next);
+    let (u, cap) = used_cap(&c);
+    assert!(u == 0 && cap == 0, "C19: a stride-representable sequence occupies heap after reserve");
+    assert!(Storage::len(&c) == prefix.len() + 1 && c.index(prefix.len()) == next, "C19: container reads differently after reserve");
+    sym::forget(c);
+}
+
+// @h prop=C19 tier=quick kind=proof inst="IndexOptimized: reserve in every stride-representable mode" bounds="empty / [0] / [0,3,6] (striding) / [0,3,6,6] and [0,3,6,6,6] (saturated), reserve(4), then the value that continues the sequence" desc="no heap (used and capacity 0) after reserve and after continuing the sequence, in each mode"
+#[cfg_attr(kani, kani::proof, kani::unwind(8))]
+pub fn c19_indexopt_reserve_in_every_mode() {
+    indexopt_reserve_free(&[], 0);
+    indexopt_reserve_free(&[0], 3);
+    indexopt_reserve_free(&[0, 3, 6], 9);
+    indexopt_reserve_free(&[0, 3, 6], 6);
+    indexopt_reserve_free(&[0, 3, 6, 6], 6);
+    indexopt_reserve_free(&[0, 3, 6, 6, 6], 6);
+    cover!(true, "end reached");
 }
